@@ -458,6 +458,17 @@ CH = (r"self\.details\.is_null = self\.address\.0 == 0; "
 if not re.fullmatch(CH, ch):
     die("calculate_heuristics body changed; coq/C19/Model.v (heuristics) must be re-read against it:\n" + ch)
 
+# ------------------------------------------------------------------ amd64 register names (BTreeSet<&'static str> order, rsp)
+cx = rd("minidump/src/context.rs")
+m = re.search(r"impl CpuContext for md::CONTEXT_AMD64 \{\s*type Register = u64;\s*const REGISTERS: &'static \[&'static str\] = &\[(.*?)\];", cx, re.S)
+if not m:
+    die("CONTEXT_AMD64::REGISTERS not found")
+amd64_regs = re.findall(r'"(\w+)"', m.group(1))
+if len(amd64_regs) != len(set(amd64_regs)) or "rsp" not in amd64_regs or "rip" not in amd64_regs:
+    die("CONTEXT_AMD64::REGISTERS has an unexpected content: %r" % amd64_regs)
+by_name = sorted(amd64_regs, key=lambda n: n.encode())        # Ord for &str is byte-wise lexicographic
+amd64_rank = [by_name.index(n) for n in amd64_regs]
+
 # ------------------------------------------------------------------ emit
 L = []
 L.append("(* GENERATED by translate/c19_check.py from minidump-processor/src/{processor,process_state}.rs, minidump/src/system_info.rs, "
@@ -533,6 +544,13 @@ L.append("(* BitFlipDetails::confidence: guard and index of the NEARBY_REGISTER 
 L.append("   too large value is an index/overflow panic) *)")
 L.append("Definition NEARBY_GUARD (n : Z) : bool := %s." % guard)
 L.append("Definition NEARBY_INDEX (NEARBY_LEN n : Z) : Z := %s." % index)
+L.append("")
+L.append("(* CONTEXT_AMD64::REGISTERS = %s; register id = position in that list (valid_registers() order).")
+L[-1] = L[-1] % " ".join(amd64_regs)
+L.append("   AMD64_NAME_RANK: rank of each id when the NAMES are sorted (the order of a BTreeSet<&'static str>) *)")
+L.append("Definition AMD64_NAME_RANK : list Z := [%s]." % "; ".join(map(str, amd64_rank)))
+L.append("Definition AMD64_RSP_ID : Z := %d." % amd64_regs.index("rsp"))
+L.append("Definition AMD64_RIP_ID : Z := %d." % amd64_regs.index("rip"))
 out = "\n".join(L) + "\n"
 os.makedirs(outdir, exist_ok=True)
 p = os.path.join(outdir, "C19Check.v")
